@@ -3,6 +3,7 @@ package nodeutil
 import (
 	"context"
 	"fmt"
+	"github.com/freeconf/yang/fc"
 	"io"
 	"strings"
 
@@ -73,12 +74,27 @@ func (x *XmlNode) Child(r node.ChildRequest) (node.Node, error) {
 		// The XML elements representing list entries MAY be interleaved with elements
 		// for siblings of the list
 		for ndx >= 0 {
+			if err := x.Nodes[ndx].noText(r.Meta); err != nil {
+				return nil, err
+			}
 			found = append(found, x.Nodes[ndx])
 			ndx = x.Find(ndx+1, r.Meta)
 		}
 		return &XmlNode{XMLName: x.XMLName, Nodes: found}, nil
 	}
+	if err := x.Nodes[ndx].noText(r.Meta); err != nil {
+		return nil, err
+	}
 	return x.Nodes[ndx], nil
+}
+
+// noText reports an element with character data where the schema declares a
+// container or list entry, which holds elements only
+func (x *XmlNode) noText(m meta.Definition) error {
+	if len(x.Nodes) == 0 && x.ContentTrim() != "" {
+		return fmt.Errorf("%w. expected elements inside %s, found text", fc.BadRequestError, m.Ident())
+	}
+	return nil
 }
 
 func (x *XmlNode) Next(r node.ListRequest) (node.Node, []val.Value, error) {
